@@ -657,7 +657,10 @@ class PrivateKey:
         # sign the message using the self.sign method
         return self.sign(z)
 
-    def wif(self, compressed=True):
+    def wif(self, compressed=None):
+        # without an argument the key's own compression flag is used
+        if compressed is None:
+            compressed = self.compressed
         # convert the secret from integer to a 32-bytes in big endian using int_to_big_endian(x, 32)
         secret_bytes = int_to_big_endian(self.secret, 32)
         # prepend b'\xef' on testnet/signet, b'\x80' on mainnet
